@@ -164,6 +164,8 @@ def literals(test):
         return items[0] if len(items) == 1 else ('and', items)
     if isinstance(test, ast.Constant):
         return ('const', bool(test.value))
+    if isinstance(test, ast.Call) and isinstance(test.func, ast.Name) and test.func.id == 'bool' and len(test.args) == 1 and not test.keywords:
+        return literals(test.args[0])           # bool(x) has the truth value of x
     return ('atom', Atom(expr=test), True)
 
 
@@ -241,6 +243,24 @@ def eval_struct(s, asg):
 
 
 # ------------------------------------------------------------------------ CFG
+
+# simple names of repository functions that never return normally (set by model.Repo from the parsed tree)
+NORETURN = set()
+
+
+def always_raises(stmts):
+    """does every path through this statement list end in a raise (syntactic: raise / if with both branches raising)?"""
+    if not stmts:
+        return False
+    last = stmts[-1]
+    if isinstance(last, ast.Raise):
+        return True
+    if isinstance(last, ast.If):
+        return always_raises(last.body) and always_raises(last.orelse)
+    if isinstance(last, (ast.With, ast.AsyncWith)):
+        return always_raises(last.body)
+    return False
+
 
 class CFG:
     """Nodes are ints; 0 entry, 1 normal exit, 2 raise exit.  stmt[n] is the
@@ -334,7 +354,9 @@ class CFG:
         if isinstance(st, ast.Return):
             self._edge((n, None), 1)
             return []
-        if isinstance(st, ast.Raise):
+        if isinstance(st, ast.Raise) or (isinstance(st, ast.Expr) and isinstance(st.value, ast.Call) and
+                                         (call_name(st.value) or '').split('.')[-1] in NORETURN):
+            # a raise statement, or a call of a function of the repository every path of which raises (reraise(..))
             if not handlers:
                 self._edge((n, None), 2)
             return []
